@@ -241,6 +241,12 @@ fn case_cprune(r: &mut Rng, id: usize, out: &mut String) {
             _ => gen_tree(r, m, k, cfg),
         }
     };
+    // the argument tree may carry a warm cache of its own (it went through an elimination): its states and witnesses
+    // belong to ITS paths and must not travel into the result
+    let mut g = g;
+    if r.chance(1, 3) {
+        let _ = catch(AssertUnwindSafe(|| g.infeasible_elimination()));
+    }
     let mut h0 = f.clone();
     let unpruned = catch(AssertUnwindSafe(|| h0.compose::<false, false>(&g)));
     let mut h1 = f.clone();
